@@ -7,6 +7,7 @@ package main
 import (
 	"bytes"
 	"fmt"
+	"hash/fnv"
 	"math/rand"
 	"os"
 	"path/filepath"
@@ -103,6 +104,7 @@ type prodScenario struct {
 	Sequential       int  // > 0: submit in groups of this size and wait for the group's outcomes before the next (no fresh input inside retry windows)
 	SkipClose        bool // do not close the producer (settings under which Close is known to block: judged by C01/C12, not here)
 	ExpectAtCluster  int  // StopInputEarly: number of records that must reach the cluster without further input
+	ProduceDelayMs   int  // the cluster takes this long to answer a produce request (batches accumulate, flush timers expire meanwhile)
 	StopInputEarly   bool // C16 flush clause: do not close, wait for the request to appear
 	BadPartitioner   string
 }
@@ -313,6 +315,9 @@ func runProd(sc *prodScenario, rng *rand.Rand) *prodResult {
 		return sarama.VSimConnAction{}
 	}
 	sim.OnProduce = func(ctx *sarama.VSimProduceCtx) sarama.VSimProduceAction {
+		if sc.ProduceDelayMs > 0 {
+			time.Sleep(time.Duration(sc.ProduceDelayMs) * time.Millisecond)
+		}
 		i := int(atomic.AddInt32(&fi, 1)) - 1
 		if i >= len(sc.Faults) {
 			return sarama.VSimProduceAction{}
@@ -398,9 +403,13 @@ func runProd(sc *prodScenario, rng *rand.Rand) *prodResult {
 		sarama.MaxRequestSize = sc.MaxRequestSize
 		restartAfterCase = true
 	}
+	// one constructor value for the whole producer, as an application has it
+	customHashCtor := sarama.NewCustomHashPartitioner(fnv.New32a)
 	mkPart := func(topic string) sarama.Partitioner {
 		var inner sarama.Partitioner
 		switch sc.Partitioner {
+		case "customhash":
+			inner = customHashCtor(topic)
 		case "hash":
 			inner = sarama.NewHashPartitioner(topic)
 		case "refhash":
@@ -696,7 +705,9 @@ func runProd(sc *prodScenario, rng *rand.Rand) *prodResult {
 			for {
 				n := 0
 				for _, p := range sim.Produced() {
-					n += p.NRecs
+					if len(sc.Faults) == 0 || p.Appended {
+						n += p.NRecs
+					}
 				}
 				if n >= sc.ExpectAtCluster {
 					close(reqDone)
